@@ -1,5 +1,6 @@
 (* C04 -- the pipeline terminates under every schedule and input: no lost wake-up, no deadlock,
-   and an explicit bound on the number of steps of any execution.
+   and a bound on the number of steps of any execution (explicit form: C04_bounded_steps_explicit_proof,
+   8(m+T) + (T+9) + 6*blocks + 10T).
    Assumption (stated in DESIGN): condition variables have no spurious wake-ups. *)
 From Wencry Require Import Bytes FileModel PipeConc PipeProps PipeProofs.
 Local Open Scope nat_scope.
@@ -23,6 +24,16 @@ Theorem C04_deadlock_free : forall T sigma0 ls s,
   1 <= T -> length sigma0 = T -> wf_loads ls -> reachable S tr tr_event c ispadding T sigma0 ls s ->
   terminal S s = false -> exists tid, enabled S tr tr_event c ispadding s tid = true.
 Proof. exact (C04_deadlock_free_proof S tr tr_event c ispadding). Qed.
+
+(* every execution is finite: an explicit bound on the number of steps of ANY schedule, from a
+   potential that strictly decreases at every step (a woken thread never goes back to sleep).
+   With deadlock freedom: every maximal execution ends in the terminal state. *)
+Theorem C04_bounded_steps : forall T sigma0 ls,
+  1 <= T -> length sigma0 = T -> wf_loads ls ->
+  exists B, forall sched s,
+    run S tr tr_event c ispadding (init S T sigma0 ls) sched = Some s -> length sched <= B.
+Proof. exact (C04_bounded_steps_proof S tr tr_event c ispadding). Qed.
 End C04.
 Print Assumptions C04_no_lost_wakeup.
 Print Assumptions C04_deadlock_free.
+Print Assumptions C04_bounded_steps.
